@@ -1,17 +1,53 @@
+# multi-bulk path only; the inline-command path (decodeSingleLineBulkBytesArray, the `default:` clause
+# of decodeResp) is extracted as c12_decoder_sites_inline but NOT pinned: it is outside the quantifier
 EXPECTED_DECODER_SITES = [
     "NewDecoder: return &Decoder{r: r, offset: 0}",
     "MustDecodeOpt: return resp, -1, err",
     "MustDecodeOpt: return resp, d.offset, nil",
-    "decodeResp: read UnreadByte",
     "decodeType: d.offset++",
     "decodeType: read ReadByte",
     "decodeText: read ReadBytes",
     "decodeText: d.offset += int64(len(b))",
     "decodeBulkBytes: read io.ReadFull",
-    "decodeBulkBytes: d.offset += int64(len(b))",
-    "decodeSingleLineBulkBytesArray: read ReadBytes",
-    "decodeSingleLineBulkBytesArray: d.offset += int64(len(b))",
+    "decodeBulkBytes: d.offset += int64(len(b))"
 ]
+
+# digests of the function bodies the model transcribes (decodeResp without its default clause) and of
+# RedisConn.Send/send. A mismatch means "re-read the model against the code", it is a broken TIE,
+# not evidence of a defect; size-dependent control flow that no practical input reaches (e.g. a cap
+# on `$n` at 512 MiB) is only visible here.
+EXPECTED_BODIES = {
+    "pkg/redis/client/conn/redis_conn.go:Send": "80178038c23a",
+    "pkg/redis/client/conn/redis_conn.go:send": "6f6fdb8dd1a5",
+    "pkg/redis/client/decoder.go:MustDecodeOpt": "ba0ce340a001",
+    "pkg/redis/client/decoder.go:NewDecoder": "6b54a39a377e",
+    "pkg/redis/client/decoder.go:decodeArray": "dd894a6ff23a",
+    "pkg/redis/client/decoder.go:decodeBulkBytes": "73e12a9548e6",
+    "pkg/redis/client/decoder.go:decodeInt": "91d01079d250",
+    "pkg/redis/client/decoder.go:decodeResp": "2ce567d36dff",
+    "pkg/redis/client/decoder.go:decodeText": "5a81f098c807",
+    "pkg/redis/client/decoder.go:decodeType": "1dfad94c7833",
+    "pkg/redis/client/encoder.go:encodeArray": "cfbf5dcf3467",
+    "pkg/redis/client/encoder.go:encodeBulkBytes": "93feabd4cdac",
+    "pkg/redis/client/encoder.go:encodeInt": "4b20c3ad5e6a",
+    "pkg/redis/client/encoder.go:encodeResp": "4310b9ef1ec1",
+    "pkg/redis/client/encoder.go:encodeString": "f55548b0fef4",
+    "pkg/redis/client/encoder.go:encodeType": "dceb11040110",
+    "pkg/redis/client/encoder.go:itos": "bf076046a798",
+    "pkg/redis/client/handler.go:ChangeArgsToResp": "75a708d46ab9",
+    "pkg/redis/client/handler.go:ParseArgs": "122fb040e753",
+    "pkg/redis/client/proto/writer.go:WriteArg": "c6de4818c4bf",
+    "pkg/redis/client/proto/writer.go:WriteArgs": "c2b94c4e34ee",
+    "pkg/redis/client/proto/writer.go:bytes": "546dd69ce953",
+    "pkg/redis/client/proto/writer.go:crlf": "2739d17cbf5c",
+    "pkg/redis/client/proto/writer.go:float": "022ba48c6496",
+    "pkg/redis/client/proto/writer.go:int": "047df52c198c",
+    "pkg/redis/client/proto/writer.go:string": "9c796880ca91",
+    "pkg/redis/client/proto/writer.go:uint": "de10744b43d8",
+    "pkg/redis/client/proto/writer.go:writeLen": "130617b64042",
+    "pkg/redis/client/resp.go:AsArray": "1615b4b267c1",
+    "pkg/redis/client/resp.go:AsBulkBytes": "4fdc5c142d93"
+}
 
 EXPECTED_DECODER_USERS = [
     "cmd/aof.go:Cmd:MustDecodeOpt",
@@ -22,11 +58,14 @@ EXPECTED_DECODER_USERS = [
     "syncer/output.go:parseAofCommand:NewDecoder",
 ]
 
-# distinct forms (every use of the variable bound to MustDecodeOpt's offset must be one of these)
+# distinct uses of the variable bound to MustDecodeOpt's offset, each rendered as its WHOLE enclosing
+# statement (or `Key: value`), so an extra term (`… - 1`) cannot hide behind the innermost sum
 EXPECTED_OFFSET_USES = [
-    "cmd/aof.go:Cmd:arg of log.Info",
-    "syncer/bisync.go:parseAofReplayUnits:startOffset + incrOffset",
-    "syncer/output.go:parseAofCommand:startOffset + incrOffset",
+    "cmd/aof.go:Cmd:log.Info(\"offset(%d), cmd(%d), %s\", incrOffset, sCmd, argv)",
+    "syncer/bisync.go:parseAofReplayUnits:endOffset := startOffset + incrOffset",
+    "syncer/output.go:parseAofCommand:endOffset := startOffset + incrOffset",
+    "syncer/output.go:parseAofCommand:lastSent = startOffset + incrOffset",
+    "syncer/output.go:parseAofCommand:sendBuf <- buildSelectCmdExecution(currentDB, startOffset+incrOffset)"
 ]
 
 # textual tie only: how endOffset (= startOffset + incrOffset) becomes unit boundaries on the
@@ -57,7 +96,10 @@ PROP = {
         "GunYu.Props.C12.decodeOne_truncated",
         "GunYu.Props.C12.decodeAll_truncated",
         "GunYu.Props.C12.decodeAllFrom_offsets",
-        "GunYu.Props.C12.decodeAll_offsets_int64",
+        "GunYu.Props.C12.decodeAll_offsets_le_end",
+        "GunYu.Props.C12.int64_add_exact",
+        "GunYu.Props.C12.counter_int64_exact",
+        "GunYu.Props.C12.parser_sum_int64_exact",
         "GunYu.Props.C12.writeArgs_eq_encodeCmd",
         "GunYu.Props.C12.decode_writeArgs",
         "GunYu.Props.C12.decodeResp_offset_exact",
@@ -68,6 +110,7 @@ PROP = {
         "c12_offset_uses": EXPECTED_OFFSET_USES,
         "c12_start_offset_reassigned": [],
         "c12_bisync_offset_flow": EXPECTED_BISYNC_FLOW,
+        "c12_bodies": EXPECTED_BODIES,
     },
     "harness": [{"name": "C12", "pkg": "./pkg/redis/client/", "test": "TestVerifC12",
                  "timeout_quick": "10m", "timeout_thorough": "40m"}],
@@ -79,15 +122,22 @@ PROP = {
             "every truncation and every single-byte substitution/deletion of two short streams, token soup and corrupted "
             "generated streams. Each stream is read by the real client.Decoder (NewDecoder, MustDecodeOpt, ParseArgs, "
             "offset = start + incrOffset as in syncer.parseAofCommand) through bufio sizes 16 … 1 MiB over a reader that returns "
-            "1 … k bytes per call (k = 1 … 2^30), 3 (thorough 6) configurations per stream which must agree line by line; the first "
-            "is diffed with the Lean model (decodeAllFrom). For a quarter of the streams Decoder.offset is preset (in-package) to "
+            "1 … k bytes per call (k = 1 … 2^30), 3 (thorough 6) configurations per stream which must agree line by line (exact lines, "
+            "same code on both sides); the first is diffed with the Lean model: streams INSIDE the quantifier (accepted by the strict "
+            "oracle: canonical multi-bulk commands, optionally separated by LF) exactly (`dec`: name, args, offset, final io.EOF; model "
+            "decodeAllFrom); streams OUTSIDE it (malformed, non-canonical, inline commands) coarsely (`decx`: the commands decoded before "
+            "the decoder stops, offsets only until the first inline command, any error class = `stop`), so that repairing the inline "
+            "double count or reclassifying an error on a malformed stream is not reported against C12. For a quarter of the streams Decoder.offset is preset (in-package) to "
             "2^31-3, 2^32-3, 2^53-3 or 2^62 before the first read, so that the int64 MustDecodeOpt returns is exercised across those "
             "boundaries (monitor: offset == start + preset + bytes consumed). proto.Writer.WriteArgs (all integer widths, bool, nil, "
             "string, []byte, net.IP, Duration, float64/float32 incl. 0.1, 1e21, 5e-324, ±Inf, -0, 2^53±1, float32-unrepresentable "
-            "values and random bit patterns — wire text must equal FormatFloat(f,'f',-1,64) and ParseFloat(text) must be bit-identical "
-            "to f —, one multi-MiB []byte) and client.Encode outputs are diffed with writeArgs / encodeCmd and decoded "
+            "values and random bit patterns — ParseFloat(wire text) must be bit-identical to f; which round-tripping rendering the "
+            "writer chooses is not checked, the op carries the writer's own text —, one multi-MiB []byte), sent through the real "
+            "conn.RedisConn.Send + Flush over an in-memory connection (bytes must equal a bare Writer.WriteArgs), and client.Encode outputs are diffed with writeArgs / encodeCmd and decoded "
             "again by the real decoder and by the model. Monitor (independent strict RESP oracle in the harness): decoded name "
-            "and argument bytes == bytes sent, offset == start + bytes up to and including the command, clean io.EOF at the end. "
+            "and argument bytes == bytes sent, offset == start + bytes up to and including the command, clean io.EOF at the end; and on "
+            "EVERY stream, for every command returned before the first inline command: offset == start + preset + bytes really taken "
+            "from the reader (reader position minus bufio.Buffered(), independent of d.offset). "
             "distinct_nontrivial = distinct well-formed streams with more than one command or more than 128 bytes. "
             "Arguments longer than 24 bytes are compared as length + FNV-1a-64.",
     "trusted": [
@@ -98,17 +148,30 @@ PROP = {
     ],
     "assumptions": [
         "decoder model (decodeType/decodeText/decodeInt/decodeBulk/decodeArray/inline/ParseArgs) is hand-written and tied by "
-        "correspondence; read sites, `d.offset` updates and the return statements of MustDecodeOpt/NewDecoder in decoder.go, the users "
-        "of the decoder (any package alias, in-package callers) and every use of incrOffset (`startOffset + incrOffset`, startOffset "
-        "never reassigned) are re-extracted each run and compared with the expected lists",
+        "correspondence plus extracted facts compared each run: read sites, `d.offset` updates and return statements of the multi-bulk "
+        "path of decoder.go; digests of the bodies of the transcribed functions (decoder multi-bulk path, ParseArgs, AsBulkBytes, "
+        "AsArray, encoder, proto.Writer, RedisConn.Send/send); the users of the decoder; every use of incrOffset rendered as its "
+        "whole enclosing statement; startOffset never reassigned. A fact mismatch is a broken TIE (`no-failing-input-found`): it means "
+        "the model must be re-read against the changed code, it is not by itself evidence of a defect",
+        "QUANTIFIER — replication streams are multi-bulk only (Redis propagates every command as `*n\\r\\n$len…`; an inline command is "
+        "what a human types into telnet, the master never sends one). Inline commands are therefore OUTSIDE C12: the decoder counts "
+        "their first byte twice (decodeType counts it, UnreadByte, then the whole line is counted again), which is recorded as an "
+        "observation, not a C12 violation and not fixed here. The model transcribes the current behaviour (example in Props/C12.lean) "
+        "but the check does not defend it: inline-path sites are not pinned and offsets are not compared from the first inline command "
+        "on, so the one-line repair (`d.offset--` after UnreadByte) passes the check",
+        "NOT REACHABLE — control flow that depends on an argument being larger than what can be generated (largest generated argument "
+        "6 MiB; a 512 MiB bulk would need ~12 GiB in the Lean driver's list representation) is covered only by the body digests "
+        "(c12_bodies), e.g. an allocation cap in decodeBulkBytes; the theorems hold for every length below 2^63 in the model",
         "DEPENDENCIES — C12 runs the decoder, ParseArgs, Encode and WriteArgs, not the parser loops around them. That the real "
         "syncer.parseAofCommand keeps each command's arguments intact while it decodes on (the `data` slice / sendBuf) and attaches "
         "startOffset+incrOffset to the right command is checked on the real loop by C01/C02 (sender harness); that "
         "syncer.parseAofReplayUnits turns endOffset/prevOffset/txnStart into correct unit boundaries is checked by C13. C12 only "
         "ties those call sites textually (c12_offset_uses, c12_bisync_offset_flow). The start offset passed in by the callers is C06/C16.",
-        "offsets are natural numbers in the model; Go computes them in int64. decodeAll_offsets_int64 shows every reported offset is "
-        "below 2^63 when the end of the stream is, so no wrap-around is needed; a narrowing inside the decoder or MustDecodeOpt is "
-        "searched for by the preset-offset streams (2^31, 2^32, 2^53, 2^62), not proved absent for all counter values",
+        "offsets are natural numbers in the model; Go computes them in wrapping int64. Bridge (explicit no-overflow hypothesis "
+        "`start + |stream| < 2^63`): decodeAll_offsets_le_end (every reported offset lies between start and the end of the stream), "
+        "int64_add_exact / counter_int64_exact / parser_sum_int64_exact (Lean's Int64: the wrapping counter and the wrapping "
+        "`startOffset + incrOffset` equal the natural-number values). That the Go code really uses plain int64 additions and no narrower "
+        "type is the body digests + the preset-offset streams (2^31, 2^32, 2^53, 2^62), not a theorem",
         "WF: argument and argument-list lengths below 2^63 (true of every Go slice), a non-empty and ASCII command name. "
         "strings.ToLower's Unicode path (non-ASCII / invalid UTF-8 names are rewritten by Go) is not modelled and not generated; "
         "arguments are arbitrary bytes",
@@ -118,10 +181,8 @@ PROP = {
         "read `eof` as 'ended on a command boundary'",
         "float arguments DO reach WriteArgs: zset scores on the snapshot path (rdb_object.go ZSetParser.ExecCmd → Send/Do → "
         "Writer.float). The model carries a float as the text strconv.AppendFloat(f,'f',-1,64) produces and proves the framing of that "
-        "text; the digits are trusted to strconv and checked on the real writer by the harness (text == FormatFloat, ParseFloat(text) "
-        "bit-identical). time.Time and BinaryMarshaler arguments are not used by the tool and not modelled",
-        "observation, outside the quantifier (multi-bulk only): an inline command's first byte is counted twice "
-        "(decodeType counts it, UnreadByte, then the whole line is counted) — model transcribes it, example in Props/C12.lean",
+        "text; the digits are trusted to strconv and checked on the real writer by the harness (ParseFloat(wire text) bit-identical "
+        "to the float64 passed; the rendering itself is free). time.Time and BinaryMarshaler arguments are not used by the tool and not modelled",
         "observation, outside C12: the decoder allocates `$n`/`*n` without an upper bound, so a corrupt length can panic or exhaust "
         "memory instead of returning an error; the malformed-stream generator avoids 7-19 digit lengths",
         "observation: bisyncAofCommand.EndOffset (set by makeCmd in parseAofReplayUnits) is never read — dead field",
